@@ -416,7 +416,7 @@ func init() {
 		b = append(b, jobs(time.Hour, 1, "prune-deleted-subscription-deliveries", "prune-deleted-subscriptions", "prune-deleted-topics")...)
 		return []*hist.Scenario{
 			{
-				ID: "C15/deliveries+messages", Prop: "C15", Depth: d(tier, 5, 6), Drain: true, Converge: true,
+				ID: "C15/deliveries+messages", Prop: "C15", Depth: d(tier, 5, 6), Drain: true, Converge: true, Metamorphic: true,
 				Cfg: model.Cfg{Topics: []string{"T0"}, Subs: []model.SubCfg{
 					{Name: "S0", Topic: "T0", Ordered: true, Retention: 3 * time.Hour},
 					{Name: "S1", Topic: "T0", Filter: fX, Retention: 40 * time.Minute},
@@ -424,12 +424,25 @@ func init() {
 				Alphabet: a,
 			},
 			{
-				ID: "C15/resources+deadletter", Prop: "C15", Depth: d(tier, 4, 5), Drain: true, Converge: true,
+				ID: "C15/resources+deadletter", Prop: "C15", Depth: d(tier, 4, 5), Drain: true, Converge: true, Metamorphic: true,
 				Cfg: model.Cfg{Topics: []string{"T0", "TD"}, Subs: []model.SubCfg{
 					{Name: "S0", Topic: "T0", DLTopic: "TD", MaxAttempts: 1, TTL: 3 * time.Hour},
 					{Name: "SD", Topic: "TD"},
 				}},
 				Alphabet: b,
+			},
+			{
+				// a deleted dead-letter topic that nothing but the policy refers to
+				ID: "C15/deadletter-topic-reclaimed", Prop: "C15", Depth: d(tier, 6, 7), Drain: true, Converge: true, Metamorphic: true,
+				Cfg: model.Cfg{Topics: []string{"T0", "TD"}, Subs: []model.SubCfg{
+					{Name: "S0", Topic: "T0", DLTopic: "TD", MaxAttempts: 1},
+				}},
+				Alphabet: []model.Op{
+					pub1("T0", "", 0), pull("S0", 10), nack("S0", "all"), ack("S0", "all"),
+					delTopic("TD"), get("sub", "S0"),
+					job("prune-deleted-topics", 0, 100), job("prune-completed-deliveries", 0, 100), job("prune-completed-messages", 0, 100),
+					tick("lease+"), sweep(),
+				},
 			},
 		}
 	}
